@@ -566,7 +566,7 @@ func laFrame(c *Ctx, rule string) {
 	for _, p := range u.TC {
 		short := strings.TrimPrefix(p, "uni/")
 		ctor := u.Func(p, "NewParquetWriter")
-		inner := u.Func(p, "newParquetWriter")
+		inner := roleFunc(u, p, "writerInner")
 		cl := u.Func(p, "ParquetWriter.Close")
 		if ctor == nil || inner == nil || cl == nil {
 			r.failf("%s: writer API missing in %s", rule, p)
